@@ -875,3 +875,223 @@ theorem repL_setRGL (cfg : Cfg) (v : Bool) : ∀ (xs : List Op), fdtL cfg xs = t
 end
 
 end LinOp.C14
+
+/-! ### deep leaf laws of the conversions -/
+namespace LinOp.C14
+
+/-- what `type t` / `double` / `float` / `half` must do to a tensor: clone it, and cast it iff it is floating -/
+def tyLeaf (t : DT) (l : Leaf) : Leaf :=
+  if l.dt.isFloat then { l with dt := t, fresh := true } else { l with fresh := true }
+
+theorem convLeaf_type_eq (t : DT) (g : Bool) (l : Leaf) : convLeaf (.type t) g l = tyLeaf t l := by
+  unfold convLeaf tyLeaf; rfl
+
+theorem convLeaf_cloneTo_guard (t : DT) (l : Leaf) : convLeaf (.cloneTo t) true l = tyLeaf t l := by
+  unfold convLeaf tyLeaf
+  cases h : l.dt.isFloat <;> simp [h]
+
+def isTy (m : Mode) (t : DT) : Prop := m = .type t ∨ m = .cloneTo t
+
+/- trees on which `type` converts uniformly: no dtype/device keyword rewrite (Identity/Zero/Cat), no
+   TransposePermutation (its `type` returns self), every sub-operator reports a floating dtype (otherwise `type`
+   only clones it) -/
+mutual
+def typeOK (cfg : Cfg) : Op → Bool
+  | .leaf _ => true
+  | .val _ => true
+  | .node cls a _ d _ _ =>
+    !rewritesNkw cls && !(decide (cls = "TransposePermutationLinearOperator")) && typeOKL cfg a && typeOKL cfg d
+def typeOKL (cfg : Cfg) : List Op → Bool
+  | [] => true
+  | x :: xs =>
+    (match x with
+     | .node c a dn d nkw hid => isFloatDT (dtypeOf cfg true (.node c a dn d nkw hid))
+     | _ => true) && typeOK cfg x && typeOKL cfg xs
+end
+
+theorem nodeMode_not_cat (m : Mode) (cls : String) (h : rewritesNkw cls = false) : nodeMode m cls = m := by
+  simp only [rewritesNkw, Bool.or_eq_false_iff, decide_eq_false_iff_not] at h
+  simp [nodeMode, h.2]
+
+theorem convLeaf_ty (cfg : Cfg) (hb : cfg.baseToGuard = true) (m : Mode) (t : DT) (hm : isTy m t) (g : Bool) (l : Leaf) :
+    convLeaf m (g || cfg.baseToGuard) l = tyLeaf t l := by
+  rcases hm with rfl | rfl
+  · exact convLeaf_type_eq t _ l
+  · rw [hb, Bool.or_true]; exact convLeaf_cloneTo_guard t l
+
+mutual
+theorem conv_ty_node (cfg : Cfg) (hb : cfg.baseToGuard = true) (t : DT) :
+    ∀ (o : Op), normal cfg o = true → typeOK cfg o = true → ∀ (m : Mode), isTy m t → (∀ l, o ≠ .leaf l) →
+    ∃ o', conv cfg m o = some o' ∧ skel o' = skel o ∧ rep o' = (rep o).map (tyLeaf t)
+  | .leaf l, _, _, _, _, hnl => absurd rfl (hnl l)
+  | .val v, _, _, _, _, _ => ⟨_, rfl, rfl, rfl⟩
+  | .node cls a dn d nkw hid, hn, hp, m, hm, _ => by
+    simp only [normal, Bool.and_eq_true] at hn
+    simp only [typeOK, Bool.and_eq_true, Bool.not_eq_true', decide_eq_false_iff_not] at hp
+    obtain ⟨⟨hok, hna⟩, hnd⟩ := hn
+    obtain ⟨⟨⟨hrw, htp⟩, hpa⟩, hpd⟩ := hp
+    rw [conv_node, if_neg (by simp [htp]), nodeMode_not_cat m cls hrw, convNkw_plain m cls nkw hrw]
+    obtain ⟨a', hca, hsa, hra⟩ := convL_ty cfg hb t a hna hpa m hm (floatOnlyTo cls)
+    obtain ⟨d', hcd, hsd, hrd⟩ := convL_ty cfg hb t d hnd hpd m hm (floatOnlyTo cls)
+    rw [hca, hcd]
+    have hok' := nodeOK_congr cfg cls a a' dn d d' nkw hid hsa.symm hsd.symm hok
+    exact ⟨.node cls a' dn d' nkw hid, construct_fix cfg cls a' dn d' nkw hid hok', by simp only [skel, hsa, hsd],
+      by simp only [rep, hra, hrd, List.map_append]⟩
+theorem convL_ty (cfg : Cfg) (hb : cfg.baseToGuard = true) (t : DT) :
+    ∀ (xs : List Op), normalL cfg xs = true → typeOKL cfg xs = true → ∀ (m : Mode), isTy m t → ∀ (guard : Bool),
+    ∃ xs', convL cfg m guard xs = some xs' ∧ skelL xs' = skelL xs ∧ repL xs' = (repL xs).map (tyLeaf t)
+  | [], _, _, _, _, _ => ⟨[], rfl, rfl, rfl⟩
+  | x :: xs, hn, hp, m, hm, guard => by
+    simp only [normalL, Bool.and_eq_true] at hn
+    simp only [typeOKL, Bool.and_eq_true] at hp
+    obtain ⟨⟨hfx, hpx⟩, hpxs⟩ := hp
+    obtain ⟨xs', hxs, hsxs, hrxs⟩ := convL_ty cfg hb t xs hn.2 hpxs m hm guard
+    have hhead : ∃ y, convHead cfg m guard x = some y ∧ skel y = skel x ∧ rep y = (rep x).map (tyLeaf t) := by
+      cases x with
+      | leaf l => exact ⟨_, rfl, rfl, by simp [rep, convLeaf_ty cfg hb m t hm guard l]⟩
+      | val v => exact ⟨_, rfl, rfl, rfl⟩
+      | node c a dn d nkw hid =>
+        simp only at hfx
+        have ih := conv_ty_node cfg hb t (.node c a dn d nkw hid) hn.1 hpx (.cloneTo t) (Or.inr rfl)
+          (by intro l h; cases h)
+        rcases hm with rfl | rfl
+        · simp only [convHead, hfx, if_true]; exact ih
+        · simp only [convHead, hfx, Bool.not_true, Bool.and_false, Bool.false_eq_true, if_false]; exact ih
+    obtain ⟨y, hy, hsy, hry⟩ := hhead
+    rw [convL_cons, hy, hxs]
+    exact ⟨y :: xs', rfl, by simp only [skelL, hsy, hsxs], by simp only [repL, hry, hrxs, List.map_append]⟩
+end
+
+/-! clone / detach: every leaf, at every depth, goes through the mode's leaf law; no side conditions beyond normality -/
+
+def simpleMode (m : Mode) : Prop := m = .clone ∨ m = .detach
+
+theorem convLeaf_simple (m : Mode) (hm : simpleMode m) (g : Bool) (l : Leaf) : convLeaf m g l = convLeaf m false l := by
+  rcases hm with rfl | rfl <;> rfl
+
+theorem convNkw_simple (m : Mode) (hm : simpleMode m) (cls : String) (nkw : KV) : convNkw m cls nkw = nkw := by
+  rcases hm with rfl | rfl <;>
+  · unfold convNkw
+    by_cases h1 : cls = "IdentityLinearOperator"
+    · rw [if_pos h1]
+    · rw [if_neg h1]
+      by_cases h2 : cls = "ZeroLinearOperator"
+      · rw [if_pos h2]
+      · rw [if_neg h2]
+        by_cases h3 : cls = "CatLinearOperator"
+        · rw [if_pos h3]
+        · rw [if_neg h3]
+
+theorem nodeMode_simple (m : Mode) (hm : simpleMode m) (cls : String) : nodeMode m cls = m := by
+  rcases hm with rfl | rfl <;>
+  · unfold nodeMode
+    by_cases h : cls = "CatLinearOperator"
+    · rw [if_pos h]
+    · rw [if_neg h]
+
+mutual
+theorem conv_simple (cfg : Cfg) (m : Mode) (hm : simpleMode m) : ∀ (o : Op), normal cfg o = true →
+    ∃ o', conv cfg m o = some o' ∧ skel o' = skel o ∧ rep o' = (rep o).map (convLeaf m false)
+  | .leaf l, _ => ⟨_, rfl, rfl, rfl⟩
+  | .val v, _ => ⟨_, rfl, rfl, rfl⟩
+  | .node cls a dn d nkw hid, hn => by
+    simp only [normal, Bool.and_eq_true] at hn
+    obtain ⟨⟨hok, hna⟩, hnd⟩ := hn
+    have hnt : isTypeMode m = false := by rcases hm with rfl | rfl <;> rfl
+    rw [conv_node, if_neg (by simp [hnt]), nodeMode_simple m hm, convNkw_simple m hm]
+    obtain ⟨a', hca, hsa, hra⟩ := convL_simple cfg m hm a hna (floatOnlyTo cls)
+    obtain ⟨d', hcd, hsd, hrd⟩ := convL_simple cfg m hm d hnd (floatOnlyTo cls)
+    rw [hca, hcd]
+    have hok' := nodeOK_congr cfg cls a a' dn d d' nkw hid hsa.symm hsd.symm hok
+    exact ⟨.node cls a' dn d' nkw hid, construct_fix cfg cls a' dn d' nkw hid hok', by simp only [skel, hsa, hsd],
+      by simp only [rep, hra, hrd, List.map_append]⟩
+theorem convL_simple (cfg : Cfg) (m : Mode) (hm : simpleMode m) : ∀ (xs : List Op), normalL cfg xs = true →
+    ∀ (guard : Bool), ∃ xs', convL cfg m guard xs = some xs' ∧ skelL xs' = skelL xs ∧
+      repL xs' = (repL xs).map (convLeaf m false)
+  | [], _, _ => ⟨[], rfl, rfl, rfl⟩
+  | x :: xs, hn, guard => by
+    simp only [normalL, Bool.and_eq_true] at hn
+    obtain ⟨xs', hxs, hsxs, hrxs⟩ := convL_simple cfg m hm xs hn.2 guard
+    have hhead : ∃ y, convHead cfg m guard x = some y ∧ skel y = skel x ∧ rep y = (rep x).map (convLeaf m false) := by
+      cases x with
+      | leaf l => exact ⟨_, rfl, rfl, by simp [rep, convLeaf_simple m hm _ l]⟩
+      | val v => exact ⟨_, rfl, rfl, rfl⟩
+      | node c a dn d nkw hid =>
+        have ih := conv_simple cfg m hm (.node c a dn d nkw hid) hn.1
+        rcases hm with rfl | rfl <;> exact ih
+    obtain ⟨y, hy, hsy, hry⟩ := hhead
+    rw [convL_cons, hy, hxs]
+    exact ⟨y :: xs', rfl, by simp only [skelL, hsy, hsxs], by simp only [repL, hry, hrxs, List.map_append]⟩
+end
+
+end LinOp.C14
+
+/-! ### `to(dtype)` over the whole tree -/
+namespace LinOp.C14
+
+/-- what `to(t)` must do to a tensor: nothing if it already has dtype `t` or is not floating, else cast (new storage) -/
+def toLeaf (t : DT) (l : Leaf) : Leaf :=
+  if l.dt = t then l else if l.dt.isFloat then { l with dt := t, fresh := true } else l
+
+theorem convLeaf_to_guard (t : DT) (l : Leaf) : convLeaf (.to t) true l = toLeaf t l := by
+  unfold convLeaf toLeaf
+  by_cases h1 : l.dt = t
+  · simp [h1]
+  · cases h : l.dt.isFloat <;> simp [h1, h]
+
+mutual
+def toOK (cfg : Cfg) : Op → Bool
+  | .leaf _ => true
+  | .val _ => true
+  | .node cls a _ d _ _ => !rewritesNkw cls && toOKL cfg a && toOKL cfg d
+def toOKL (cfg : Cfg) : List Op → Bool
+  | [] => true
+  | x :: xs =>
+    (match x with
+     | .node c a dn d nkw hid => isFloatDT (dtypeOf cfg false (.node c a dn d nkw hid))
+     | _ => true) && toOK cfg x && toOKL cfg xs
+end
+
+mutual
+theorem conv_to_node (cfg : Cfg) (hb : cfg.baseToGuard = true) (t : DT) :
+    ∀ (o : Op), normal cfg o = true → toOK cfg o = true → (∀ l, o ≠ .leaf l) →
+    ∃ o', conv cfg (.to t) o = some o' ∧ skel o' = skel o ∧ rep o' = (rep o).map (toLeaf t)
+  | .leaf l, _, _, hnl => absurd rfl (hnl l)
+  | .val v, _, _, _ => ⟨_, rfl, rfl, rfl⟩
+  | .node cls a dn d nkw hid, hn, hp, _ => by
+    simp only [normal, Bool.and_eq_true] at hn
+    simp only [toOK, Bool.and_eq_true, Bool.not_eq_true'] at hp
+    obtain ⟨⟨hok, hna⟩, hnd⟩ := hn
+    obtain ⟨⟨hrw, hpa⟩, hpd⟩ := hp
+    rw [conv_node, if_neg (by simp [isTypeMode]), nodeMode_not_cat _ cls hrw, convNkw_plain _ cls nkw hrw]
+    obtain ⟨a', hca, hsa, hra⟩ := convL_to cfg hb t a hna hpa (floatOnlyTo cls)
+    obtain ⟨d', hcd, hsd, hrd⟩ := convL_to cfg hb t d hnd hpd (floatOnlyTo cls)
+    rw [hca, hcd]
+    have hok' := nodeOK_congr cfg cls a a' dn d d' nkw hid hsa.symm hsd.symm hok
+    exact ⟨.node cls a' dn d' nkw hid, construct_fix cfg cls a' dn d' nkw hid hok', by simp only [skel, hsa, hsd],
+      by simp only [rep, hra, hrd, List.map_append]⟩
+theorem convL_to (cfg : Cfg) (hb : cfg.baseToGuard = true) (t : DT) :
+    ∀ (xs : List Op), normalL cfg xs = true → toOKL cfg xs = true → ∀ (guard : Bool),
+    ∃ xs', convL cfg (.to t) guard xs = some xs' ∧ skelL xs' = skelL xs ∧ repL xs' = (repL xs).map (toLeaf t)
+  | [], _, _, _ => ⟨[], rfl, rfl, rfl⟩
+  | x :: xs, hn, hp, guard => by
+    simp only [normalL, Bool.and_eq_true] at hn
+    simp only [toOKL, Bool.and_eq_true] at hp
+    obtain ⟨⟨hfx, hpx⟩, hpxs⟩ := hp
+    obtain ⟨xs', hxs, hsxs, hrxs⟩ := convL_to cfg hb t xs hn.2 hpxs guard
+    have hhead : ∃ y, convHead cfg (.to t) guard x = some y ∧ skel y = skel x ∧ rep y = (rep x).map (toLeaf t) := by
+      cases x with
+      | leaf l =>
+        refine ⟨_, rfl, rfl, ?_⟩
+        simp only [rep, List.map_cons, List.map_nil, hb, Bool.or_true, convLeaf_to_guard]
+      | val v => exact ⟨_, rfl, rfl, rfl⟩
+      | node c a dn d nkw hid =>
+        simp only at hfx
+        have ih := conv_to_node cfg hb t (.node c a dn d nkw hid) hn.1 hpx (by intro l h; cases h)
+        simp only [convHead, hfx, Bool.not_true, Bool.and_false, Bool.false_eq_true, if_false]; exact ih
+    obtain ⟨y, hy, hsy, hry⟩ := hhead
+    rw [convL_cons, hy, hxs]
+    exact ⟨y :: xs', rfl, by simp only [skelL, hsy, hsxs], by simp only [repL, hry, hrxs, List.map_append]⟩
+end
+
+end LinOp.C14
